@@ -5,7 +5,7 @@ import re
 from .. import common as c, gen, genbins, l1facts, l1stream, translate
 
 THEOREMS = [("Sylvia.Thm.C15", "C15." + t) for t in ["used_iff", "used_nodup", "used_unused_partition", "where_iff", "api_consistent"]] + \
-           [("Sylvia.Thm.Obl.Tables", "Obl.extraction_complete")]
+           [("Sylvia.Thm.Obl.Complete.C15", "Obl.extraction_complete_C15")]
 MSG_OF = {"exec": "ExecMsg", "query": "QueryMsg", "sudo": "SudoMsg", "instantiate": "InstantiateMsg", "migrate": "MigrateMsg"}
 
 
@@ -44,7 +44,7 @@ def run(ctx):
                         "generic parameters are type parameters without inline bounds (bounds in where clauses), as in all sylvia examples",
                         "behaviour of compiled generic contracts instantiated with concrete types is exercised separately (generic corpus), see evidence"]
     translate.regenerate()
-    c.prove(ctx, ["Sylvia.Thm.C15", "Sylvia.Thm.Obl.Tables"], THEOREMS)
+    c.prove(ctx, ["Sylvia.Thm.C15"], THEOREMS)
     cts, ifs = l1stream.build(ctx, ctx.size(700, 20000), ctx.size(250, 8000), seed_salt=15)
     ops, impl, model, meta = l1stream.run(ctx, "L1-facts", cts, ifs, "C15")
     nd = c.diff_streams(ctx, "L1-facts", ops, impl, model)
